@@ -55,6 +55,13 @@ def cases(draw):
         c["shape"] = list(draw(gen.shape3d(s1[1], max_voxels=150_000, max_traces=700)))
     c["s1"] = [s1[0], list(s1[1])]
     c["s2"] = [s2[0], list(s2[1])]
+    if kind == "segy3d" and draw(st.integers(0, 3)) == 0:
+        # an earlier conversion, in this process and with the same reader, of another survey stored under the same
+        # file name in the other sample format (IBM <-> IEEE); half of these surveys have a dead first line, which
+        # is all the reduced-I/O reader's self test looks at
+        c["prior"] = draw(st.integers(0, 2 ** 16))
+        if draw(st.booleans()):
+            c["values"] = dict(c["values"], kind="deadedge")
     return c
 
 
@@ -82,6 +89,13 @@ def convert(case, data, out, setting, d, tag, earlier=()):
         cols = sgy.base_cols(n_il * n_xl, ns, 4000, 0)
         il, xl = list(range(1, n_il + 1)), list(range(1, n_xl + 1))
         cols.update(sgy.regular_cols(il, xl))
+        if case.get("prior") is not None and tag == "a":
+            pdata = gen.make_values(data.shape, "gauss", case["prior"])
+            sgy.write_segy(path, pdata.reshape(-1, ns), cols, 4000, fmt=6 - case["fmt"], grid=(il, xl))
+            pout = os.path.join(d, "prior.sgz")
+            conv.segy_convert(path, pout, 4, (4, 4, -1), reduce_iops=(case["reader"] == "reduced"), header_detection="strip")
+            if get_hash(pout) != sha(sgy.read_source(path)["traces"]):
+                raise Violation("hash-not-sha1-of-source", "the survey converted first under this file name")
         sgy.write_segy(path, data.reshape(-1, ns), cols, 4000, fmt=case["fmt"], grid=(il, xl))
         src = sgy.read_source(path)["traces"]
     conv.segy_convert(path, out, rate, bs, reduce_iops=(case["reader"] == "reduced" and case["kind"] != "2d"),
@@ -145,7 +159,7 @@ def run_case(case, ctx):
     nontriv = n % bs[k] != 0 or n > bs[k]
     return {"sig": [case["kind"], gen.dim_class(n, bs[k]), n % 4, case["s1"], case["reader"], case["fmt"], case["pert"]] if nontriv else None,
             "labels": [case["kind"], "groups>1" if n > bs[k] else "one-group", case["pert"], "mode:" + case.get("mode", "strip")]
-            + (["reused-converter"] if case.get("reuse") else [])}
+            + (["reused-converter"] if case.get("reuse") else []) + (["after-prior-conversion"] if case.get("prior") is not None else [])}
 
 
 def shard_main(ctx):
